@@ -94,27 +94,31 @@ Proof. vm_compute. repeat split; reflexivity. Qed.
 
 (* C04_follower_commit_verified: node 2 learns commit 2 from an append_entries that verifies index 2 *)
 Definition g1a := g_after (tr1 ++ [EAdmin 1 rem3 8; ETick 1 232 0 30 [] 0]).
+Definition head_msg (a b : nid) (g : gstate) : msg :=
+  match chan_get a b g with m :: _ => m | [] => ResponseVote 0 end.
+
 Example follower_commit_example :
   let n := node_of 2 g1a in
-  exists m rest, chan_get 1 2 g1a = m :: rest /\
-    ae_msg_info m = Some (1, 2) /\ commit n = 1 /\
-    commit (nd (on_message (mk_env xc 233 0 DEFAULT_BUDGET [] 0) 1 m n)) = 2.
-Proof. vm_compute. eexists; eexists. repeat split; reflexivity. Qed.
+  let m := head_msg 1 2 g1a in
+  chan_get 1 2 g1a <> [] /\ ae_msg_info m = Some (1, 2) /\ commit n = 1 /\
+  commit (nd (on_message (mk_env xc 233 0 DEFAULT_BUDGET [] 0) 1 m n)) = 2.
+Proof. vm_compute. repeat split; try reflexivity. discriminate. Qed.
 
 (* C04_match_idx_from_success: the success reply of node 2 raises its slot from 2 to 3 *)
-Definition g2a := g_after (tr1 ++ tr2 ++ [EDeliver 1 2 266 0 []; EDeliver 2 1 267 0 []; EDeliver 1 2 268 0 []]).
+Definition g2a := g_after (tr1 ++ tr2 ++ [EDeliver 1 2 266 0 []]).
 Example match_idx_example :
   let n := node_of 1 g2a in
-  exists m rest, chan_get 2 1 g2a = m :: rest /\ m = NextIdx (term n) 4 false true /\
-    role n = LEADER /\ aget 2 (match_idx n) = Some 2 /\
-    aget 2 (match_idx (nd (on_message (mk_env xc 269 0 DEFAULT_BUDGET [] 0) 2 m n))) = Some 3.
-Proof. vm_compute. eexists; eexists. repeat split; reflexivity. Qed.
+  let m := head_msg 2 1 g2a in
+  m = NextIdx (term n) 4 false true /\
+  role n = LEADER /\ aget 2 (match_idx n) = Some 2 /\
+  aget 2 (match_idx (nd (on_message (mk_env xc 267 0 DEFAULT_BUDGET [] 0) 2 m n))) = Some 3.
+Proof. vm_compute. repeat split; reflexivity. Qed.
 
 (* a reply of another term leaves the leader exactly as it was *)
 Example stale_reply_example :
   let n := node_of 1 g2a in
-  on_message (mk_env xc 269 0 DEFAULT_BUDGET [] 0) 2 (NextIdx 0 4 false true) n
-  = start_S (mk_env xc 269 0 DEFAULT_BUDGET [] 0) n.
+  on_message (mk_env xc 267 0 DEFAULT_BUDGET [] 0) 2 (NextIdx 0 4 false true) n
+  = start_S (mk_env xc 267 0 DEFAULT_BUDGET [] 0) n.
 Proof. apply next_idx_other_term_ignored. left. vm_compute. discriminate. Qed.
 
 (* C04_match_idx_tick_static: a static 3-node configuration, the leader's tick keeps match_idx *)
@@ -129,10 +133,12 @@ Proof. vm_compute. repeat split; try reflexivity; discriminate. Qed.
 (* C04_applied_monotone_partial: no snapshot is involved in this run, the conditions hold trivially;
    the tick at 276 moves applied from 2 to 3 *)
 Example applied_example :
-  let n := node_of 1 g2b in
-  snap_ahead_tick (tick_env 276) n /\ applied n = 2 /\ applied (nd (on_tick (tick_env 276) n)) = 3.
+  snap_ahead_tick (tick_env 276) (node_of 1 g2b) /\ applied (node_of 1 g2b) = 2 /\
+  applied (nd (on_tick (tick_env 276) (node_of 1 g2b))) = 3.
 Proof.
-  split; [|vm_compute; auto]. intros H. vm_compute in H. discriminate.
+  split; [|vm_compute; auto]. unfold snap_ahead_tick.
+  assert (E : need_load (node_of 1 g2b) = false) by (vm_compute; reflexivity).
+  rewrite E. cbn [andb]. discriminate.
 Qed.
 
 (* C04_log_wf: the nodes of the final state are well formed, their logs non-empty, the messages
